@@ -34,6 +34,7 @@ import (
 	"github.com/plgd-dev/go-coap/v3/message/pool"
 	"github.com/plgd-dev/go-coap/v3/net/blockwise"
 	"github.com/plgd-dev/go-coap/v3/net/client"
+	"github.com/plgd-dev/go-coap/v3/net/responsewriter"
 	tcpclient "github.com/plgd-dev/go-coap/v3/tcp/client"
 	tcpcoder "github.com/plgd-dev/go-coap/v3/tcp/coder"
 	udpclient "github.com/plgd-dev/go-coap/v3/udp/client"
@@ -444,6 +445,109 @@ func runCase(t *testing.T, transport, op, point, cause string) (line string) {
 	return line
 }
 
+// runQueueFull: the connection's own handler blocks, the peer keeps sending requests until the receive queue (16) is full
+// and the socket reader is parked in its hand-over to the queue; then the connection is closed (or the peer closes /
+// sends garbage).  The reader must leave, the done signal must be completed and the on-close callbacks run once.
+func runQueueFull(t *testing.T, transport, cause string) (line string) {
+	synctest.Test(t, func(t *testing.T) {
+		defer func() {
+			if r := recover(); r != nil {
+				line = fmt.Sprintf("panic %v", r)
+			}
+		}()
+		release := make(chan struct{})
+		handler := func() { <-release }
+		var cc conn
+		var us *mem.UDPSession
+		var tp *mem.TCPPeer
+		if transport == "udp" {
+			c, s := mem.NewUDPConn(mem.UDPOpts{RunExitDelay: slowRunExit, Mutate: func(cfg *udpclient.Config) {
+				cfg.Handler = func(*responsewriter.ResponseWriter[*udpclient.Conn], *pool.Message) { handler() }
+			}})
+			cc, us = c, s
+		} else {
+			c, p, err := mem.NewTCPConn(mem.TCPOpts{Mutate: func(cfg *tcpclient.Config) {
+				cfg.Handler = func(*responsewriter.ResponseWriter[*tcpclient.Conn], *pool.Message) { handler() }
+			}})
+			if err != nil {
+				line = "conn-error"
+				return
+			}
+			cc, tp = c, p
+			synctest.Wait()
+			tp.TakeFrames()
+		}
+		var cbA, cbB atomic.Int32
+		cc.AddOnClose(func() { cbA.Add(1) })
+		cc.AddOnClose(func() { cbB.Add(1) })
+		// the peer's burst: more requests than the queue holds
+		var pw sync.WaitGroup
+		pw.Add(1)
+		go func() {
+			defer pw.Done()
+			for i := 0; i < 24; i++ {
+				m := pool.NewMessage(context.Background())
+				m.SetCode(codes.GET)
+				m.SetToken(message.Token{0x51, byte(i)})
+				_ = m.SetPath("/h")
+				if transport == "udp" {
+					m.SetType(message.NonConfirmable)
+					m.SetMessageID(int32(6000 + i))
+					b, _ := m.MarshalWithEncoder(udpcoder.DefaultCoder)
+					us.Deliver(b)
+				} else {
+					b, _ := m.MarshalWithEncoder(tcpcoder.DefaultCoder)
+					if err := tp.Write(append([]byte(nil), b...)); err != nil {
+						return
+					}
+				}
+			}
+		}()
+		synctest.Wait() // the reader is parked: queue full, handler blocked
+		causeAt := time.Now()
+		switch cause {
+		case "close":
+			go func() { _ = cc.Close() }()
+		case "peerclose":
+			if tp != nil {
+				go tp.Conn.Close()
+			} else {
+				go func() { _ = cc.Close() }()
+			}
+		}
+		synctest.Wait()
+		time.Sleep(slowRunExit + time.Millisecond)
+		synctest.Wait()
+		done, after := 0, int64(-1)
+		select {
+		case <-cc.Done():
+			done = 1
+			after = 0
+		default:
+		}
+		_ = causeAt
+		// three more closers, as in the grid
+		var wg sync.WaitGroup
+		for i := 0; i < 3; i++ {
+			wg.Add(1)
+			go func() { defer wg.Done(); _ = cc.Close() }()
+		}
+		wg.Wait()
+		close(release)
+		if tp != nil {
+			tp.Close()
+		}
+		if done == 0 {
+			// give a stuck reader the chance to end so that the bubble can finish (it is reported as not done)
+			time.Sleep(time.Second)
+		}
+		synctest.Wait()
+		pw.Wait()
+		line = fmt.Sprintf("ret %d after %d err - ; done %d onclose %d %d ; panics 0", done, after, done, cbA.Load(), cbB.Load())
+	})
+	return line
+}
+
 // runStalled: the stream peer has stopped reading, so the operation's Write blocks inside the transport ("during send").
 // Real time (a goroutine blocked on a mutex is not durably blocked, so a bubble could never report a hanging Close).
 func runStalled(op, cause string) (line string) {
@@ -615,6 +719,8 @@ func TestC09(t *testing.T) {
 			lp.PoolTraceBegin()
 			if f[3] == "stalled" {
 				fmt.Fprintln(w, runStalled(f[2], f[4]))
+			} else if f[3] == "qfull" {
+				fmt.Fprintln(w, runQueueFull(t, f[1], f[4]))
 			} else if f[2] == "discover" {
 				fmt.Fprintln(w, runDiscover(f[4]))
 			} else if f[2] == "srvstop" {
